@@ -3,6 +3,7 @@
 // cross-rank invariants of DESIGN.md 5.3 with purely geometric entity keys.
 #include "world_common.hpp"
 #include <kernel/geometry/mesh_file_reader.hpp>
+#include <algorithm>
 #include <fstream>
 
 using namespace FEAT;
@@ -383,12 +384,128 @@ namespace
     return owner;
   }
 
+  // RootMeshNode::extract_patch called directly (no control layer, no MPI): any number of patches from 1 to the number of
+  // cells, cell lists in arbitrary (unsorted) order - the control layer never extracts a single patch and its partitioners
+  // list cells in ascending order, but the interface takes any elements-at-rank graph. Oracles: every patch's local->base
+  // maps (the target sets of the patch mesh part kept by the base node) agree with the geometry in every dimension, the
+  // patches cover every cell once, neighbour lists are symmetric and complete, halos describe the same entities in the same
+  // order on both sides - also after a joint refinement.
+  template<typename Mesh_>
+  void direct_extract(const wc::WorldCfg& cfg, wc::VertexDict& dict)
+  {
+    typedef Geometry::RootMeshNode<Mesh_> NodeType;
+    constexpr int dim = Mesh_::shape_dim;
+    std::ifstream ifs(std::string("/repo/data/meshes/") + cfg.mesh_file);
+    Geometry::MeshFileReader reader;
+    reader.add_stream(ifs);
+    Geometry::MeshAtlas<Mesh_> atlas;
+    std::unique_ptr<NodeType> base = NodeType::make_unique(nullptr, &atlas);
+    reader.parse(*base, atlas, nullptr);
+    const int lvl = int(sim::cfg_int("dx_level", 0, dim == 3 ? 1 : 2));
+    for(int l = 0; l < lvl; ++l) base = base->refine_unique(Geometry::AdaptMode::chart);
+    const Index ne = base->get_mesh()->get_num_elements();
+    static const int nps[8] = {1, 1, 2, 3, 4, 7, 16, 1000};
+    Index np = Index(nps[sim::cfg_int("dx_np_idx", 0, 7)]);
+    if(np > ne) np = ne;
+    const unsigned long long seed = (unsigned long long)sim::cfg_int("dx_seed", 0, 1 << 30);
+    const std::vector<Index> owner = seeded_owner(ne, np, seed, int(sim::cfg_int("dx_mode", 0, 2)));
+    // elements-at-rank graph with every list in seeded order (ascending, descending or shuffled)
+    Adjacency::Graph graph(np, ne, ne);
+    {
+      unsigned long long s = seed * 6364136223846793005ull + 99;
+      auto rnd = [&s](Index m) { s = s * 6364136223846793005ull + 1442695040888963407ull; return Index((s >> 33) % m); };
+      const int order = int(sim::cfg_int("dx_order", 0, 2));
+      Index k = 0;
+      for(Index r = 0; r < np; ++r)
+      {
+        graph.get_domain_ptr()[r] = k;
+        std::vector<Index> mine;
+        for(Index c = 0; c < ne; ++c) if(owner[c] == r) mine.push_back(c);
+        if(order == 1) std::reverse(mine.begin(), mine.end());
+        if(order == 2) for(size_t i = mine.size(); i > 1; --i) std::swap(mine[i - 1], mine[rnd(Index(i))]);
+        for(Index c : mine) graph.get_image_idx()[k++] = c;
+      }
+      graph.get_domain_ptr()[np] = k;
+    }
+    if(np == 1) sim::probe("single_patch_extracted_directly");
+    const auto base_keys = wc::entity_keys(*base->get_mesh(), dict);
+    std::vector<std::unique_ptr<NodeType>> patches(np);
+    std::vector<std::vector<int>> neigh(np);
+    for(Index r = 0; r < np; ++r) patches[r] = base->extract_patch(neigh[r], graph, int(r));
+    const int refinements = int(sim::cfg_int("dx_refine", 0, dim == 3 ? 1 : 2));
+    std::map<Key, int> cell_count;
+    for(int rl = 0; rl <= refinements; ++rl)
+    {
+      const std::string where = "direct extract_patch, " + std::to_string(np) + " patch(es) of " + std::to_string(ne) + " cells, refinement " + std::to_string(rl);
+      std::vector<std::vector<std::vector<Key>>> pk(np);
+      for(Index r = 0; r < np; ++r) pk[r] = wc::entity_keys(*patches[r]->get_mesh(), dict);
+      if(rl == 0)
+      {
+        // local -> base maps against the geometry
+        for(Index r = 0; r < np; ++r)
+        {
+          const auto* pp = base->get_patch(int(r));
+          if(pp == nullptr) sim::fail("PATCH_MAP", where + ": the base node does not hold the mesh part of patch " + std::to_string(r));
+          const auto trg = wc::part_targets<Mesh_>(*pp);
+          for(int d = 0; d <= dim; ++d)
+          {
+            if(trg[size_t(d)].size() != pk[r][size_t(d)].size()) sim::fail("PATCH_MAP", where + ": patch " + std::to_string(r) + " has " + std::to_string(pk[r][size_t(d)].size()) + " entities of dimension " + std::to_string(d) + ", its map lists " + std::to_string(trg[size_t(d)].size()));
+            for(size_t e = 0; e < trg[size_t(d)].size(); ++e)
+              if(!(pk[r][size_t(d)][e] == base_keys[size_t(d)][trg[size_t(d)][e]]))
+                sim::fail("PATCH_MAP", where + ": entity " + std::to_string(e) + " of dimension " + std::to_string(d) + " of patch " + std::to_string(r) + " is not the base-mesh entity " + std::to_string(trg[size_t(d)][e]) + " its local->base map names");
+          }
+        }
+      }
+      // cover
+      cell_count.clear();
+      size_t total = 0;
+      for(Index r = 0; r < np; ++r) for(const Key& k : pk[r][size_t(dim)]) { ++cell_count[k]; ++total; }
+      for(const auto& kc : cell_count) if(kc.second != 1) sim::fail("COVER", where + ": a cell is contained in " + std::to_string(kc.second) + " patches");
+      Index expect = ne; for(int l = 0; l < rl; ++l) expect *= Index(Geometry::Intern::StandardRefinementTraits<typename Mesh_::ShapeType, dim>::count);
+      if(total != size_t(expect)) sim::fail("COVER", where + ": the patches hold " + std::to_string(total) + " cells, the mesh has " + std::to_string(expect));
+      // neighbours and halos
+      for(Index r = 0; r < np; ++r)
+      {
+        std::set<Key> vr(pk[r][0].begin(), pk[r][0].end());
+        for(Index q = 0; q < np; ++q)
+        {
+          if(q == r) continue;
+          bool share = false;
+          for(const Key& k : pk[q][0]) if(vr.count(k)) { share = true; break; }
+          const bool listed = std::find(neigh[r].begin(), neigh[r].end(), int(q)) != neigh[r].end();
+          if(share != listed) sim::fail(share ? "NEIGHBOUR_MISSING" : "NEIGHBOUR_SPURIOUS", where + ": patches " + std::to_string(r) + " and " + std::to_string(q) + (share ? " share a vertex but are not neighbours" : " are neighbours but share no vertex"));
+          if(!listed || q < r) continue;
+          const auto* hr = patches[r]->get_halo(int(q));
+          const auto* hq = patches[q]->get_halo(int(r));
+          if(hr == nullptr || hq == nullptr) sim::fail("HALO_MISSING", where + ": no halo between the neighbours " + std::to_string(r) + " and " + std::to_string(q));
+          const auto tr = wc::part_targets<Mesh_>(*hr), tq = wc::part_targets<Mesh_>(*hq);
+          for(int d = 0; d <= dim; ++d)
+          {
+            if(tr[size_t(d)].size() != tq[size_t(d)].size()) sim::fail("HALO_SET", where + ": halos of " + std::to_string(r) + " and " + std::to_string(q) + " differ in size in dimension " + std::to_string(d));
+            for(size_t e = 0; e < tr[size_t(d)].size(); ++e)
+              if(!(pk[r][size_t(d)][tr[size_t(d)][e]] == pk[q][size_t(d)][tq[size_t(d)][e]])) sim::fail("HALO_ORDER", where + ": halos of " + std::to_string(r) + " and " + std::to_string(q) + " name different entities at position " + std::to_string(e) + " of dimension " + std::to_string(d));
+          }
+        }
+      }
+      if(rl < refinements) for(Index r = 0; r < np; ++r) patches[r] = patches[r]->refine_unique(Geometry::AdaptMode::chart);
+    }
+    sim::probe("direct_extract_patch_workload");
+  }
+
   template<typename S_>
   void run_world(const wc::WorldCfg& cfg)
   {
     Shared sh;
     sh.ranks.resize(size_t(cfg.n));
     SH = &sh;
+    if(sim::cfg_int("direct_extract", 0, 3) == 0)
+    {
+      const wc::WorldCfg c2 = cfg;
+      sim::spawn("direct-extract", [c2]() { direct_extract<typename S_::MeshType>(c2, SH->dict); });
+      sim::run_go();
+      SH = nullptr;
+      return;
+    }
     if(cfg.parti == 3 && cfg.layers == 1 && cfg.n > 1 && sim::cfg_int("explicit_via_file", 0, 1) == 1)
     {
       typedef typename S_::MeshType MeshType;
